@@ -118,6 +118,34 @@ def _box_prism(lo, hi):
     ]
 
 
+def _quad_tris(q):
+    return [[q[0], q[1], q[2]], [q[0], q[2], q[3]]]
+
+
+def _tri_surface(kind, rng):
+    """Closed, conforming triangulated surface + the convex pieces of its interior."""
+    if kind == "box":
+        lo = [rng.randint(-2, 0) for _ in range(3)]
+        hi = [lo[i] + rng.choice([2, 4]) for i in range(3)]
+        tris = [t for q in _box_prism(lo, hi) for t in _quad_tris(q)]
+        return tris, [["box", lo, hi]]
+    if kind == "tet":
+        s = rng.choice([3, 4, 6])
+        o, a, b, c = (0, 0, 0), (s, 0, 0), (0, s, 0), (0, 0, s)
+        return [[o, a, b], [o, a, c], [o, b, c], [a, b, c]], [["tet", s]]
+    h = rng.choice([2, 3])
+    ring = [(0, 0), (2, 0), (4, 0), (4, 2), (4, 4), (2, 4), (2, 2), (0, 2)]
+    tris = []
+    for i in range(len(ring)):
+        a, b = ring[i], ring[(i + 1) % len(ring)]
+        tris += _quad_tris([(a[0], a[1], 0), (b[0], b[1], 0), (b[0], b[1], h), (a[0], a[1], h)])
+    for z in (0, h):
+        for (x0, y0) in ((0, 0), (2, 0), (2, 2)):
+            tris += _quad_tris([(x0, y0, z), (x0 + 2, y0, z), (x0 + 2, y0 + 2, z), (x0, y0 + 2, z)])
+    pieces = [["box", [0, 0, 0], [4, 2, h]], ["box", [2, 2, 0], [4, 4, h]], ["box", [2, 1, 0], [4, 3, h]]]
+    return tris, pieces
+
+
 class C31(Prop):
     id = "C31"
     props_file = "Props/C31.v"
@@ -128,28 +156,33 @@ class C31(Prop):
     level_text = (
         "Coq theorems over an executable Q/Z transcription of is_ccw_polygon, is_ccw_polyline, "
         "point_in_polygon (repaired), points_are_collinear (repaired), points_are_planar, "
-        "point_inside_half_space_intersection, sort_point_pairs and the sort key of "
-        "sort_points_on_line: ccw <=> shoelace area positive (any polygon); polyline side test "
-        "with tolerance band; half-space membership <=> all inequalities (and the ValueError); "
-        "collinearity test accepts exactly collinear sets and bounds every tested cross "
-        "product on acceptance; point_in_polygon answers True for every point strictly left "
-        "of all edges (= strictly inside a convex ccw polygon; partial: converse not proved) "
-        "and equals the exact even-odd crossing-number test on ALL integer points of "
-        "[-2,8]^2 for five fixed non-convex integer polygons (finite-domain proofs by "
-        "vm_compute, bounds in the statement); for sort_point_pairs only the chaining step "
-        "of the inner loop is proved (partial).  Every modelled function is tied to /repo on "
-        "each run (Coq recomputes the model on the generated inputs and compares, including "
-        "raised errors).  point_in_polyhedron (solid angles, arctan2) and the end-to-end "
-        "validity of the two sort helpers are covered by exact oracles only.")
+        "point_inside_half_space_intersection, sort_point_pairs, the sort key of "
+        "sort_points_on_line and the degeneracy decision logic of point_in_polyhedron: "
+        "ccw <=> shoelace area positive (any polygon); polyline side test with tolerance band; "
+        "half-space membership <=> all inequalities (and the ValueError); collinearity test; "
+        "point_in_polygon: strictly left of all edges => inside, separated from all vertices "
+        "by a line => outside (any vertex list), hence both directions for convex ccw "
+        "polygons (C31_pip_convex), and equality with the exact even-odd crossing test on ALL "
+        "integer points of [-2,8]^2 for five fixed non-convex polygons (finite-domain "
+        "vm_compute proof); sort_point_pairs: whenever the call succeeds the index list is a "
+        "permutation, every column is an input pair up to flipping, consecutive columns chain "
+        "and the cycle closes (C31_chain_valid); sort_points_on_line: permutation, keys "
+        "non-decreasing, and for collinear input a + s_i v the line parameter is monotone "
+        "along the output (C31_sort_on_line_monotone); point_in_polyhedron: a point in the "
+        "supporting plane of ANY triangle is answered 'outside' (C31_polyhedron_coplanar_"
+        "outside), which refutes exactness on a triangulated L-prism (C31_polyhedron_refuted, "
+        "open finding).  Every modelled function is tied to /repo on each run (Coq recomputes "
+        "the model on the generated inputs and compares, including raised errors and, for "
+        "triangulated polyhedra, whether solid_angle raised and the exact ray-parity answer).")
     level_note = (
         "Trusted: Coq kernel + vm_compute; harness generator/emitter/oracle; squared forms of "
-        "the norm tests; points_are_planar only with an explicit normal (compute_normal not "
-        "modelled); sort_points_on_line is compared through its sort key (the rotation is "
-        "not modelled; orientation rule taken from rotation_matrix's zero-axis case). NOT "
-        "proved: point_in_polygon = inside for ALL simple polygons / outside points of convex "
-        "polygons (oracle + finite-domain proofs instead); completeness of sort_point_pairs "
-        "on every single chain/cycle (oracle); point_in_polyhedron (oracle only; one open "
-        "finding).")
+        "the norm tests; points_are_planar only with an explicit normal; sort_points_on_line "
+        "is compared through its sort key (the rotation is not modelled; orientation rule "
+        "taken from rotation_matrix's zero-axis case); pip_ref / pih_ref are exact reference "
+        "routines written in Coq.  NOT proved: point_in_polygon for ALL simple non-convex "
+        "polygons (finite-domain proofs + oracle instead); that sort_point_pairs succeeds on "
+        "every single chain/cycle (oracle); the solid-angle sum of point_in_polyhedron "
+        "(arctan2; exact ray-parity reference in the tie, oracle; one open finding).")
     technique = ("Coq proof (induction over polygons/loops, nra over Q, finite-domain vm_compute) + "
                  "vm_compute execution correspondence + exact rational oracles")
     rule = ("per case one function: integer polygons (convex hulls, star-shaped, fixed "
@@ -285,7 +318,15 @@ class C31(Prop):
                     k = rng.choice([-1, 1, 2])
                     pts[i] = [pts[i][j] + k * nrm[j] for j in range(3)]
                 scale = rng.choice([1, 1, 2, -3])
-                yield {"fn": "planar", "pts": pts, "normal": [scale * x for x in nrm]}
+                if rng.random() < 0.5:
+                    mode = rng.random()
+                    if mode < 0.12:
+                        pts, _ = self._line_pts(rng, rng.randint(3, 5))     # collinear: RuntimeError
+                    elif mode < 0.2:
+                        pts = pts[:rng.randint(1, 2)]                        # too few: ValueError
+                    yield {"fn": "planar_auto", "pts": pts}
+                else:
+                    yield {"fn": "planar", "pts": pts, "normal": [scale * x for x in nrm]}
             elif r < 0.72:
                 if rng.random() < 0.5:
                     lo = [rng.randint(-3, 0) for _ in range(3)]
@@ -330,6 +371,11 @@ class C31(Prop):
                     ks = rng.sample(range(-4, 5), m)
                     pts = [[k if i == axis else 1 for i in range(3)] for k in ks]
                 yield {"fn": "sort_line", "pts": pts}
+            elif r < 0.96:
+                tris, pieces = _tri_surface(rng.choice(["box", "tet", "Lprism", "Lprism"]), rng)
+                pts = [[F(rng.randint(-1, 10), 2) for _ in range(3)] for _ in range(6)]
+                yield {"fn": "polyh_tri", "tris": [[list(q) for q in t] for t in tris],
+                       "pieces": pieces, "pts": [[str(x) for x in q] for q in pts]}
             else:
                 kind = rng.choice(["box", "tet", "Lprism"])
                 if kind == "box":
@@ -376,6 +422,13 @@ class C31(Prop):
         if fn == "planar":
             return bool(gpc.points_are_planar(np.array(case["pts"], dtype=float).T,
                                               normal=np.array(case["normal"], dtype=float)))
+        if fn == "planar_auto":
+            try:
+                return {"ok": bool(gpc.points_are_planar(np.array(case["pts"], dtype=float).T))}
+            except ValueError:
+                return {"err": "PValueErr"}
+            except RuntimeError:
+                return {"err": "PRuntimeErr"}
         if fn == "halfspace":
             try:
                 r = half_space.point_inside_half_space_intersection(
@@ -402,6 +455,28 @@ class C31(Prop):
             faces = [np.array(f, dtype=float).T for f in case["faces"]]
             pts = np.array([[float(F(x)) for x in p] for p in case["pts"]]).T
             return [bool(x) for x in gpc.point_in_polyhedron(faces, pts)]
+        if fn == "polyh_tri":
+            faces = [np.array(t, dtype=float).T for t in case["tris"]]
+            pts = np.array([[float(F(x)) for x in q] for q in case["pts"]]).T
+            cls = pp.point_in_polyhedron.PointInPolyhedron
+            orig = cls.winding_number
+            raised = []
+
+            def wrapped(self_, point):
+                try:
+                    v = orig(self_, point)
+                except ValueError:
+                    raised.append(True)
+                    raise
+                raised.append(False)
+                return v
+            cls.winding_number = wrapped
+            try:
+                r = gpc.point_in_polyhedron(faces, pts)
+            finally:
+                cls.winding_number = orig
+            assert len(raised) == pts.shape[1]
+            return {"inside": [bool(x) for x in r], "raised": raised}
         raise ValueError(fn)
 
     # -------------------------------------------------------------- oracle
@@ -463,6 +538,17 @@ class C31(Prop):
             exact = all(v3dot(nrm, v3sub(p, c)) == 0 for p in pts)
             if exact != res:
                 return f"points_are_planar={res}, exact coplanarity {exact}: {pts} normal {nrm}"
+        elif fn == "planar_auto":
+            pts = case["pts"]
+            if len(pts) >= 3:
+                crs = [v3cross(v3sub(p, pts[0]), v3sub(q, pts[0])) for p in pts for q in pts]
+                nrm = next((c for c in crs if any(c)), None)
+                if nrm is not None:          # not all collinear
+                    if "ok" not in res:
+                        return f"non-collinear points raised {res}"
+                    exact = all(v3dot(nrm, v3sub(p, pts[0])) == 0 for p in pts)
+                    if exact != res["ok"]:
+                        return f"points_are_planar(normal=None)={res['ok']}, exact coplanarity {exact}: {pts}"
         elif fn == "halfspace":
             if len(case["n"]) == len(case["x0"]):
                 if "ok" not in res:
@@ -496,23 +582,24 @@ class C31(Prop):
                 ks = [v3dot(v3sub(pts[i], pts[res[0]]), d) for i in res]
                 if any(ks[i] > ks[i + 1] for i in range(len(ks) - 1)):
                     return f"order {res} is not monotone along the line: {pts}"
-        elif fn == "polyhedron":
-            for p, r in zip(case["pts"], res):
+        elif fn in ("polyhedron", "polyh_tri"):
+            faces_key = "faces" if fn == "polyhedron" else "tris"
+            for p, r in zip(case["pts"], res if fn == "polyhedron" else res["inside"]):
                 pf = [F(x) for x in p]
                 st = self._piece_state(case["pieces"], pf)
                 self._stat("polyhedron-point-" + st)
                 if st == "in" and not r:
-                    return f"interior point {p} reported outside; faces {case['faces']}"
+                    return f"interior point {p} reported outside; faces {case[faces_key]}"
                 if st == "out" and r:
-                    return f"exterior point {p} reported inside; faces {case['faces']}"
+                    return f"exterior point {p} reported inside; faces {case[faces_key]}"
         return None
 
     def finding_key(self, case, res, why):
-        if case["fn"] == "polyhedron" and "interior point" in why:
+        if case["fn"] in ("polyhedron", "polyh_tri") and "interior point" in why:
             # is the point coplanar with the supporting plane of some face?
             p = [F(x) for x in why.split("interior point ")[1].split(" reported")[0]
                  .strip("[]").replace("'", "").split(", ")]
-            for f in case["faces"]:
+            for f in case["faces" if case["fn"] == "polyhedron" else "tris"]:
                 nrm = v3cross(v3sub(f[1], f[0]), v3sub(f[2], f[0]))
                 if v3dot(nrm, v3sub(p, f[0])) == 0:
                     return KEY_POLYH
@@ -535,6 +622,10 @@ class C31(Prop):
         if fn == "planar":
             return (f"Bool.eqb {cbool(res)} (points_are_planar {cq(TOL5)} {p3(case['normal'])} "
                     f"{clist(case['pts'], p3)})")
+        if fn == "planar_auto":
+            impl = res["err"] if "err" in res else f"(POk {cbool(res['ok'])})"
+            return (f"agree_pres {impl} (points_are_planar_auto {cq(TOL5)} {cq(TOL5)} "
+                    f"{clist(case['pts'], p3)})")
         if fn == "halfspace":
             impl = f"(HErr {res['err']})" if "err" in res else f"(HOk {clist(res['ok'], cbool)})"
             return (f"agree_hres {impl} (half_space_int {clist(case['n'], p3)} "
@@ -546,18 +637,30 @@ class C31(Prop):
                     f"{cbool(case['check'])} {cbool(case['circ'])})")
         if fn == "sort_line":
             return f"agree_line_sort {clist(res, cnat)} {clist(case['pts'], p3)}"
+        if fn == "polyh_tri":
+            tris = clist(case["tris"], lambda t: f"({p3(t[0])}, {p3(t[1])}, {p3(t[2])})")
+            terms = [f"agree_pih {cbool(ra)} {cbool(ins)} tol10 tris {p3([F(x) for x in q])}"
+                     for q, ins, ra in zip(case["pts"], res["inside"], res["raised"])]
+            return f"(let tris := {tris} in forallb (fun b : bool => b) {clist(terms)})"
         return None
 
     def coq_diag(self, case, res):
         t = self.coq_case(case, res)
         if t is None:
             return None
+        if case["fn"] == "polyh_tri":
+            tris = clist(case["tris"], lambda t_: f"({p3(t_[0])}, {p3(t_[1])}, {p3(t_[2])})")
+            pts = clist([[F(x) for x in q] for q in case["pts"]], p3)
+            return (f"(let tris := {tris} in map (fun p => (pih_decision tol10 tris p, "
+                    f"pih_ref tris p)) {pts})")
         # the model side is the last parenthesised argument
         return t[t.index("(", t.index(" ")):] if case["fn"] != "sort_line" else \
             f"line_keys {clist(case['pts'], p3)}"
 
     def nontrivial(self, case, res):
         fn = case["fn"]
+        if fn == "polyh_tri":
+            return len(set(res["inside"])) == 2 or any(res["raised"])
         if fn in ("pip", "polyhedron"):
             return isinstance(res, list) and len(set(res)) == 2
         if fn == "halfspace":
@@ -569,7 +672,7 @@ class C31(Prop):
         return True
 
     def shrink(self, case, still_fails):
-        if case["fn"] in ("pip", "polyhedron"):
+        if case["fn"] in ("pip", "polyhedron", "polyh_tri"):
             for i in range(len(case["pts"])):
                 c = dict(case, pts=[case["pts"][i]])
                 if still_fails(c):
